@@ -309,21 +309,30 @@ def stale_record_family(ctx, rng, n):
         del sc2["sources"]["h.h"]
         rm_out = rng.random() < 0.4
         touch_a = rng.random() < 0.5
-        steps = [{"op": "build", "targets": [], "j": 1, "k": 1, "sched": {"mode": "prng", "seed": 1}},
-                 manifest_step(sc2)]
+        # ... or the statement does not use discovered dependencies any more (and its source no longer reads the header):
+        # its record is still in the deps log until the next recompaction, but it describes nothing - no cycle
+        obsolete = rng.random() < 0.35
+        steps = [{"op": "build", "targets": [], "j": 1, "k": 1, "sched": {"mode": "prng", "seed": 1}}]
+        if obsolete:
+            A2 = next(s_ for s_ in sc2["stmts"] if s_["id"] == "A")
+            A2["deps"], A2["depfile"] = "none", ""
+            sc2["sources"]["a.c"] = "// a without the header\n"
+            steps.append({"op": "write", "path": "a.c", "content": sc2["sources"]["a.c"]})
+            rm_out = False
+        steps.append(manifest_step(sc2))
         if rm_out:
             steps.append({"op": "rm", "path": "a.o"})
         if touch_a:
             steps.append({"op": "touch", "path": "a.c"})
         tg = rng.choice(([], ["b.o"], ["a.o"], ["h.h"]))
         steps.append({"op": "build", "targets": tg, "j": 2, "k": 1, "sched": {"mode": "prng", "seed": 2}})
-        jobs.append((simlib.scenario_json(sc, steps), sc2, steps[-1], rm_out))
+        jobs.append((simlib.scenario_json(sc, steps), sc2, steps[-1], (rm_out, obsolete)))
     res = {}
 
     def handler(scn, results, err):
         res[scn["id"]] = results
     simlib.run_scenarios([j[0] for j in jobs], handler)
-    for scn, sc2, step, rm_out in jobs:
+    for scn, sc2, step, (rm_out, obsolete) in jobs:
         r = res.get(scn["id"])
         if not r or r[-1].get("skipped"):
             ctx.inconclusive += 1
@@ -335,6 +344,10 @@ def stale_record_family(ctx, rng, n):
             ctx.count("stale_record_output_missing_cases")
             if t.get("crash"):
                 ctx.violation("C17/nsim-crash/" + (util.san_signature(t.get("stderr", "")) or "crash"), t.get("stderr", "")[-1500:], {"scenario": scn})
+            continue
+        if obsolete:
+            ctx.count("obsolete_record_cases")
+            judge(ctx, scn, sc2, step, r[-1]["trace"], None, "/obsolete-record")
             continue
         judge(ctx, scn, sc2, step, r[-1]["trace"], {"A": ["h.h"]}, "/stale-record")
 
